@@ -20,6 +20,7 @@ type SolverCfg struct {
 	workers  int
 	seed     int
 	keepSMT  bool
+	noRetry  map[string]bool // known findings: expected not to discharge
 }
 
 // constsOf: set of free constant ids in a term (memoised).
@@ -112,6 +113,9 @@ func relevant(assumps []*Term, roots []*Term) []*Term {
 
 func (eng *Engine) buildScript(fc *FuncCtx, o *Obligation) string {
 	as := fc.assumps[:o.nassump]
+	if o.useOverride {
+		as = o.override
+	}
 	var asserts []*Term
 	var goal *Term
 	if o.expect == "sat" {
@@ -181,6 +185,26 @@ func runSolver(ctx context.Context, name string, file string, timeout time.Durat
 		r.status = "error"
 	}
 	return r
+}
+
+// solveOnce: a single z3 attempt (used for batches); leaves status empty unless discharged.
+func (eng *Engine) solveOnce(body string, o *Obligation, cfg *SolverCfg) {
+	t0 := time.Now()
+	file := filepath.Join(cfg.outDir, sanitizeFile(o.name)+".smt2")
+	if os.WriteFile(file, []byte("(set-option :produce-models true)\n"+body), 0o644) != nil {
+		return
+	}
+	ctx, cancel := context.WithTimeout(context.Background(), cfg.first+2*time.Second)
+	r := runSolver(ctx, "z3-new", file, cfg.first)
+	cancel()
+	o.secs = time.Since(t0).Seconds()
+	if r.status == "unsat" {
+		o.status = "discharged"
+		o.solver = "z3-new"
+	}
+	if !cfg.keepSMT {
+		os.Remove(file)
+	}
 }
 
 // solve decides one obligation. status: discharged | failed (sat, with model) | undecided
@@ -339,8 +363,71 @@ func (eng *Engine) solveAll(results []*FuncResult, cfg *SolverCfg, filter func(o
 	// script construction touches the shared term pool: build sequentially, solve in parallel
 	var wg sync.WaitGroup
 	sem := make(chan struct{}, cfg.workers)
+	// Batch the safety obligations of one function into a single query first: the assumptions
+	// "the earlier check passed" are exactly the earlier goals, so the conjunction of all goals
+	// is proved from the remaining assumptions alone (no circularity). When the batch is
+	// discharged every member is; otherwise the members are solved one by one below.
+	type batch struct {
+		fc  *FuncCtx
+		mem []*Obligation
+	}
+	batches := map[*FuncCtx]*batch{}
+	var border []*batch
+	for _, j := range jobs {
+		if j.o.kind == "safe" && j.o.expect == "unsat" && j.o.goal != True && j.o.pc != False {
+			b := batches[j.fc]
+			if b == nil {
+				b = &batch{fc: j.fc}
+				batches[j.fc] = b
+				border = append(border, b)
+			}
+			b.mem = append(b.mem, j.o)
+		}
+	}
+	for _, b := range border {
+		if len(b.mem) < 4 {
+			continue
+		}
+		b := b
+		maxN := 0
+		var conj []*Term
+		for _, o := range b.mem {
+			if o.nassump > maxN {
+				maxN = o.nassump
+			}
+			conj = append(conj, Implies(o.pc, o.goal))
+		}
+		var as []*Term
+		for i, a := range b.fc.assumps[:maxN] {
+			if !b.fc.safeAssump[i] {
+				as = append(as, a)
+			}
+		}
+		syn := &Obligation{name: b.fc.fn + "#safe.batch", kind: "safe", fn: b.fc.fn, pc: True, goal: And(conj...), expect: "unsat", override: as, useOverride: true, descr: fmt.Sprintf("%d safety obligations of %s in one query", len(b.mem), b.fc.fn)}
+		body := eng.buildScript(b.fc, syn)
+		wg.Add(1)
+		sem <- struct{}{}
+		go func() {
+			defer wg.Done()
+			defer func() { <-sem }()
+			c2 := *cfg
+			c2.first = cfg.first * 2
+			eng.solveOnce(body, syn, &c2)
+			if syn.status == "discharged" {
+				for _, o := range b.mem {
+					o.status = "discharged"
+					o.solver = syn.solver + "(batch)"
+					o.secs = syn.secs / float64(len(b.mem))
+				}
+			}
+		}()
+	}
+	wg.Wait()
 	for _, j := range jobs {
 		j := j
+		if j.o.status == "discharged" {
+			continue
+		}
 		if j.o.expect != "sat" && (j.o.goal == True || j.o.pc == False) {
 			j.o.status = "discharged"
 			j.o.solver = "simplifier"
@@ -363,7 +450,7 @@ func (eng *Engine) solveAll(results []*FuncResult, cfg *SolverCfg, filter func(o
 	retry.first = cfg.first * 3
 	nretry := 0
 	for _, j := range jobs {
-		if j.o.status == "undecided" && j.o.kind != "vacuity" {
+		if j.o.status == "undecided" && j.o.kind != "vacuity" && !cfg.noRetry[j.o.name] {
 			if nretry++; nretry > 3 {
 				break // many undecided obligations are not a load artefact
 			}
